@@ -38,37 +38,19 @@ func evalBoolOnPath(p *cfgPath, v ssa.Value, atom func(ssa.Value) (bool, bool), 
 
 func r12_1(c *Ctx, r *Report) {
 	const rule = "R12.1"
-	r.rule(rule, "Direction. forward <=> (yang == man), where yang <=> the exact year stem index is even and man <=> gender == 1 (all four cases by path enumeration over the short-circuit evaluation); the start offset runs to the next Jie when forward and from the previous Jie otherwise.")
+	r.rule(rule, "Direction. forward <=> (yang == man), where yang <=> the exact year stem index is even and man <=> gender == 1 (the value stored into the direction field is followed by the evaluator for all ten stems and both genders); the start offset runs to the next Jie when forward and from the previous Jie otherwise.")
 	fn := c.Fn(r, rule, "calendar.NewYun")
 	if fn == nil {
 		return
 	}
-	// atoms
-	var yang, man ssa.Value
-	for _, b := range fn.Blocks {
-		for _, ins := range b.Instrs {
-			bo, ok := ins.(*ssa.BinOp)
-			if !ok || bo.Op != token.EQL {
-				continue
-			}
-			for _, pr := range [][2]ssa.Value{{bo.X, bo.Y}, {bo.Y, bo.X}} {
-				k, isK := constInt(pr[0])
-				if !isK {
-					continue
-				}
-				if rem, ok := pr[1].(*ssa.BinOp); ok && rem.Op == token.REM && k == 0 {
-					if m, ok := constInt(rem.Y); ok && m == 2 {
-						if call, ok := rem.X.(*ssa.Call); ok && call.Common().StaticCallee() != nil && call.Common().StaticCallee().Name() == "GetYearGanIndexExact" {
-							yang = bo
-						}
-					}
-				}
-				if k == 1 {
-					if _, f, ok := getterField(c, pr[1]); ok && f == "Yun.gender" {
-						man = bo
-					}
-					if p, ok := pr[1].(*ssa.Parameter); ok && p.Name() == "gender" {
-						man = bo
+	// the field IsForward returns, whatever it is called
+	fwdField := ""
+	if g := c.Fn(r, rule, "calendar.(*Yun).IsForward"); g != nil {
+		for _, b := range g.Blocks {
+			for _, ins := range b.Instrs {
+				if ret, ok := ins.(*ssa.Return); ok && len(ret.Results) == 1 {
+					if _, f, ok := getterField(c, ret.Results[0]); ok {
+						fwdField = f
 					}
 				}
 			}
@@ -78,64 +60,51 @@ func r12_1(c *Ctx, r *Report) {
 	for _, b := range fn.Blocks {
 		for _, ins := range b.Instrs {
 			if st, ok := ins.(*ssa.Store); ok {
-				if fa, ok := st.Addr.(*ssa.FieldAddr); ok && fieldKeyOf(fa) == "Yun.forward" {
+				if fa, ok := st.Addr.(*ssa.FieldAddr); ok && fieldKeyOf(fa) == fwdField {
 					store = st
 				}
 			}
 		}
 	}
-	if yang == nil || man == nil || store == nil {
-		r.bad(rule, "calendar.NewYun computes forward from yang and man", c.fnPos(fn), fmt.Sprintf("atoms not found (yang: %v, man: %v, store of forward: %v) (undecided = fail)", yang != nil, man != nil, store != nil))
+	construct := "calendar.NewYun: forward <=> (yang == man)"
+	if store == nil || len(fn.Params) != 3 {
+		r.bad(rule, construct, c.fnPos(fn), "the store of the direction (the field IsForward returns) was not found in NewYun (undecided = fail)")
 	} else {
-		paths, ok := enumPaths(fn.Blocks[0], func(from, to *ssa.BasicBlock) bool { return to == store.Block() }, 64)
+		// decision table: exact year stem index 0..9 x gender {0, 1}; the stored direction is followed by the evaluator
 		var bad []string
 		n := 0
-		if !ok {
-			bad = append(bad, "not loop-free")
-		}
-		for _, y := range []bool{false, true} {
-			for _, m := range []bool{false, true} {
-				atom := func(v ssa.Value) (bool, bool) {
-					if v == yang {
-						return y, true
+		for g := int64(0); g < 10; g++ {
+			for _, gender := range []int64{0, 1} {
+				leaf := func(fr *evalFrame, v ssa.Value) (interface{}, bool) {
+					if fr.parent == nil && v == ssa.Value(fn.Params[1]) {
+						return gender, true
 					}
-					if v == man {
-						return m, true
+					if call, ok := v.(*ssa.Call); ok && call.Common().StaticCallee() != nil && fname(call.Common().StaticCallee()) == "calendar.(*Lunar).GetYearGanIndexExact" {
+						return g, true
 					}
-					return false, false
+					return nil, false
 				}
-				feasible := 0
-				for pi := range paths {
-					p := &paths[pi]
-					okp := true
-					for _, pc := range p.conds {
-						b, known := evalBoolOnPath(p, pc.cond, atom, 0)
-						if !known {
-							bad = append(bad, "unknown branch condition "+pc.cond.String())
-							okp = false
-							break
-						}
-						if b != pc.truth {
-							okp = false
-							break
-						}
-					}
-					if !okp {
-						continue
-					}
-					feasible++
-					got, known := evalBoolOnPath(p, store.Val, atom, 0)
-					n++
-					if !known || got != (y == m) {
-						bad = append(bad, fmt.Sprintf("yang=%v man=%v gives forward=%v", y, m, got))
-					}
+				ev := &evaluator{inline: inlineLibrary, leaf: leaf}
+				fr := &evalFrame{fn: fn, phiFrom: map[*ssa.BasicBlock]*ssa.BasicBlock{}}
+				var outcome string
+				if store.Block() != fn.Blocks[0] {
+					_, outcome = ev.runFrame(fr, nil, func(b *ssa.BasicBlock) bool { return b == store.Block() })
+				} else {
+					outcome = fmt.Sprintf("stop:%d", store.Block().Index)
 				}
-				if feasible != 1 {
-					bad = append(bad, fmt.Sprintf("yang=%v man=%v selects %d paths", y, m, feasible))
+				n++
+				if outcome != fmt.Sprintf("stop:%d", store.Block().Index) {
+					bad = append(bad, "the constructor could not be followed up to the store: "+outcome+" "+ev.fail)
+					continue
+				}
+				got, ok := ev.eval(fr, store.Val, 0)
+				want := (g%2 == 0) == (gender == 1)
+				if !ok || got != interface{}(want) {
+					bad = append(bad, fmt.Sprintf("year stem %d, gender %d gives forward=%v, expected %v", g, gender, got, want))
 				}
 			}
 		}
-		r.check(len(bad) == 0 && n == 4, rule, "calendar.NewYun: forward <=> (yang == man)", c.pos(store.Pos()), fmt.Sprintf("4 cases enumerated; %v", bad))
+		r.check(len(bad) == 0 && n == 20, rule, construct, c.pos(store.Pos()), fmt.Sprintf("%d cases (year stem x gender) evaluated; deviations: %v", n, headList(bad, 3)))
 	}
 	// start/end selection in computeStart
 	cs := c.Fn(r, rule, "calendar.(*Yun).computeStart")
@@ -146,7 +115,21 @@ func r12_1(c *Ctx, r *Report) {
 	for _, b := range cs.Blocks {
 		for _, ins := range b.Instrs {
 			phi, ok := ins.(*ssa.Phi)
-			if !ok || len(phi.Edges) != 2 || (phi.Comment != "start" && phi.Comment != "end") {
+			if !ok || len(phi.Edges) != 2 {
+				continue
+			}
+			// which end of the measured interval the merged moment is: the receiver of Subtract/SubtractMinute is the end, its argument the start
+			role := ""
+			for _, ref := range *phi.Referrers() {
+				if call, ok := ref.(*ssa.Call); ok && call.Common().StaticCallee() != nil && strings.HasPrefix(call.Common().StaticCallee().Name(), "Subtract") && len(call.Common().Args) == 2 {
+					if call.Common().Args[0] == ssa.Value(phi) {
+						role = "end"
+					} else if call.Common().Args[1] == ssa.Value(phi) {
+						role = "start"
+					}
+				}
+			}
+			if role == "" {
 				continue
 			}
 			cond, e0true, ok := phiSelector(phi)
@@ -157,7 +140,7 @@ func r12_1(c *Ctx, r *Report) {
 			if u, ok := cond.(*ssa.UnOp); ok && u.Op == token.NOT {
 				cond, pol = u.X, false
 			}
-			if _, f, ok := getterField(c, cond); !ok || f != "Yun.forward" {
+			if _, f, ok := getterField(c, cond); !ok || f != fwdField {
 				continue
 			}
 			for i, e := range phi.Edges {
@@ -173,7 +156,7 @@ func r12_1(c *Ctx, r *Report) {
 				if !pol {
 					whenForward = !whenForward
 				}
-				sel[phi.Comment] = fmt.Sprintf("%s when forward=%v", src, whenForward)
+				sel[role] = fmt.Sprintf("%s when forward=%v", src, whenForward)
 			}
 		}
 	}
@@ -402,8 +385,17 @@ func r12_4(c *Ctx, r *Report) {
 		var offPhi *ssa.Phi
 		for _, b := range fn.Blocks {
 			for _, ins := range b.Instrs {
-				if phi, ok := ins.(*ssa.Phi); ok && phi.Comment == "offset" {
-					offPhi = phi
+				// the merge of the if-chain: a phi of integer constants, one per group of stems
+				if phi, ok := ins.(*ssa.Phi); ok && len(phi.Edges) >= 4 {
+					all := true
+					for _, e := range phi.Edges {
+						if _, ok := constInt(e); !ok {
+							all = false
+						}
+					}
+					if all {
+						offPhi = phi
+					}
 				}
 			}
 		}
